@@ -7,12 +7,16 @@ package harness
 import (
 	"encoding/json"
 	"fmt"
+	"github.com/remieven/ysgo"
+	"github.com/remieven/ysgo/markup"
 	"os"
 	"os/exec"
 	"path/filepath"
+	"runtime"
 	"strings"
 	"sync"
 	"testing"
+	"time"
 
 	"github.com/remieven/ysgo/variable"
 	"pgregory.net/rapid"
@@ -72,6 +76,8 @@ func c18Run(p c18Prog) (c09Run, error) {
 		}
 		return first
 	})
+	// the host annotates what it receives (the elements are its own): it writes into the property maps of the attributes
+	h.onElement = annotateElement
 	h.drive(p.Choices, nil, 30, false)
 	emitMu.Lock()
 	cmds := append(append([]string{}, h.cmdLog...), emitted...)
@@ -102,6 +108,69 @@ func c18Concurrent(c c18Case) ([]c09Run, []error) {
 	close(start)
 	wg.Wait()
 	return runs, errs
+}
+
+// annotateElement writes into every attribute's property map of an element (after the trace has been taken from it? no:
+// before - the annotation key is stripped by nobody, it simply does not show in texts, tags or Disabled flags).
+func annotateElement(el *ysgo.DialogueElement) {
+	mark := func(l *ysgo.Line) {
+		if l == nil {
+			return
+		}
+		for i := range l.Attributes {
+			if l.Attributes[i].Properties != nil {
+				l.Attributes[i].Properties["seenByHost"] = markup.Value{StringValue: el.Node, ValueType: markup.ValueTypeString}
+			}
+		}
+	}
+	mark(el.Line)
+	for i := range el.Options {
+		mark(el.Options[i].Line)
+	}
+}
+
+// c18Rendezvous: n runners (more than there are processors) each run a converted command without result that only returns
+// once all n handlers are running. Runners are independent: nothing in the library may make one wait for another's command.
+func c18Rendezvous(n int) string {
+	var arrived sync.WaitGroup
+	arrived.Add(n)
+	allHere := make(chan struct{})
+	go func() { arrived.Wait(); close(allHere) }()
+	done := make(chan string, n)
+	for i := 0; i < n; i++ {
+		go func(i int) {
+			h, err := newHost([]string{"title: A\n---\nbefore\n<<meet>>\nafter\n===\n"}, "abc", nil)
+			if err != nil {
+				done <- err.Error()
+				return
+			}
+			if err := h.dr.ConvertAndAddCommand("meet", func() {
+				arrived.Done()
+				<-allHere
+			}); err != nil {
+				done <- err.Error()
+				return
+			}
+			h.drive(nil, nil, 10, false)
+			if len(h.trace) != 3 || h.trace[1].Text != "after" {
+				done <- fmt.Sprintf("runner %d: unexpected trace %s", i, strings.ReplaceAll(showTrace(h.trace), "\n", " / "))
+				return
+			}
+			done <- ""
+		}(i)
+	}
+	deadline := time.After(30 * time.Second)
+	for i := 0; i < n; i++ {
+		select {
+		case msg := <-done:
+			if msg != "" {
+				return msg
+			}
+		case <-deadline:
+			return fmt.Sprintf("%d runners each run a command that returns once all %d handlers are running: after 30 s only %d runners have finished (a runner's command waits for the commands of other runners)", n, n, i)
+		}
+	}
+	return ""
 }
 
 const c18ColdScript = `title: A
@@ -143,6 +212,7 @@ func c18ColdStorm(n int) string {
 			}
 			return first
 		})
+		h.onElement = annotateElement
 		h.drive([]int{0}, nil, 30, false)
 		return c09Run{Trace: h.trace, Fn: h.fnLog, Cmd: h.cmdLog, Store: h.finalStore()}, nil
 	}
@@ -202,6 +272,10 @@ func TestC18Child(t *testing.T) {
 	// first of all, in this still cold process: many runners do the same things for the first time at the same moment
 	// (tables and caches that are filled on first use are filled now)
 	if msg := c18ColdStorm(12); msg != "" {
+		fmt.Printf("C18RESULT fail %s\n", msg)
+		return
+	}
+	if msg := c18Rendezvous(2*runtime.NumCPU() + 3); msg != "" {
 		fmt.Printf("C18RESULT fail %s\n", msg)
 		return
 	}
